@@ -373,6 +373,10 @@ pub struct ReplayCase {
     /// transmit arena only a little larger than the retained packet (the free space at the handshake is below the limit)
     #[serde(default)]
     pub tight: bool,
+    /// a second, shorter request of the same kind (this many payload bytes / filter characters) retained behind the
+    /// first one; the limit is still taken relative to the first
+    #[serde(default)]
+    pub second: Option<usize>,
 }
 
 pub fn eval_replay(c: &ReplayCase) -> CaseOut {
@@ -394,7 +398,20 @@ pub fn eval_replay(c: &ReplayCase) -> CaseOut {
                         let _ = bench.run(conn.subscribe(&[TopicFilter::new(&name)], &[]), id);
                     }
                 }
-                bench.written(id).len() - before
+                let len = bench.written(id).len() - before;
+                if let Some(n2) = c.second {
+                    let payload2 = vec![0x43u8; n2];
+                    let name2 = "g".repeat(n2.max(1));
+                    match c.kind {
+                        1 | 2 => {
+                            let _ = bench.run(conn.publish(Publication::bytes("t", &payload2).qos(qos_of(c.kind))), id);
+                        }
+                        _ => {
+                            let _ = bench.run(conn.subscribe(&[TopicFilter::new(&name2)], &[]), id);
+                        }
+                    }
+                }
+                len
             };
             let m = (len as i64 + c.delta as i64).max(2) as u32;
             let Conn::Ok(mut conn, id) = connect(bench, s, &connack(true, maxprop(Some(m)))) else { return None };
@@ -437,7 +454,21 @@ pub fn eval_replay(c: &ReplayCase) -> CaseOut {
                 flag(&mut viol, "Z2-wrong-error", "publish-after-replay", format!("limit {} on a resumed connection: a new PUBLISH with {} payload bytes failed with {:?}, not packet-too-large", m, m, r));
             }
         }
-        if len as u64 > m as u64 {
+        if c.second.is_some() {
+            // two retained packets: whatever is replayed, nothing longer than the limit may be among it
+            let mut off = 0;
+            while off < written.len() {
+                match mr::decode_client(&written[off..]) {
+                    Ok((p, n)) => {
+                        if n as u64 > m as u64 {
+                            flag(&mut viol, "Z1-oversize", &format!("replay-{}-behind-a-shorter-one", name), format!("retained {} of {} bytes replayed although the new Maximum Packet Size is {} (a shorter one was retained after it)", p.name(), n, m));
+                        }
+                        off += n;
+                    }
+                    Err(_) => break,
+                }
+            }
+        } else if len as u64 > m as u64 {
             if !written.is_empty() {
                 flag(&mut viol, "Z1-oversize", &format!("replay-{}", name), format!("retained {} of {} bytes replayed although the new Maximum Packet Size is {} ({} bytes written)", name, len, m, written.len()));
             }
@@ -615,9 +646,12 @@ pub fn run(tier: Tier, caps: &Caps) -> Vec<FamilyReport> {
         for n in [1usize, 2, 20, 118, 119, 120, 121, 122, 200] {
             for delta in -3..=3 {
                 for dress in [0u8, 1, 2, 3, 4] {
-                    rc.push(ReplayCase { kind, n, delta, dress, tight: false });
+                    rc.push(ReplayCase { kind, n, delta, dress, tight: false, second: None });
+                    if dress == 0 && n >= 20 {
+                        rc.push(ReplayCase { kind, n, delta, dress, tight: false, second: Some(2) });
+                    }
                     if dress < 2 {
-                        rc.push(ReplayCase { kind, n, delta, dress, tight: true });
+                        rc.push(ReplayCase { kind, n, delta, dress, tight: true, second: None });
                     }
                 }
             }
